@@ -24,4 +24,16 @@ HARNESSES = [
          loops=["needs_quotes"], loop_tables=["C16_w16"], label="proved",
          pre_instrument_flags=["--drop-unused-functions"],
          native=False, timeout=1500, cases=_caps()),
+    dict(name="w16_print_part", file="w16_print_part.c", include_dirs=_INC,
+         loops=["print_part"], loop_tables=["C16_w16"], label="proved",
+         pre_instrument_flags=["--drop-unused-functions"],
+         native=False, timeout=1500,
+         cases=[dict(c, id="q%d_%s" % (q, c["id"]), defines=dict(c["defines"], QUOTED=q))
+                for q in (0, 1) for c in _caps()]),
+    dict(name="w16_print_field", file="w16_print_field.c", include_dirs=_INC,
+         loops=["needs_quotes", "print_part"], loop_tables=["C16_w16"], label="proved",
+         pre_instrument_flags=["--drop-unused-functions"],
+         native=False, timeout=2400,
+         cases=[dict(c, id="pre%d_%s" % (q, c["id"]), defines=dict(c["defines"], PREFIX=q))
+                for q, caps in ((0, _caps(256, 1024)), (1, _caps(64, 256))) for c in caps]),
 ]
